@@ -15,6 +15,7 @@
                                  kind, and each renumbering is a bijection of the region's areas onto
                                  1..n that follows their position in the file
     annotations_record_origin    `Orig. start` / `Orig. end`
+    inside_kept_partial          features between the region's bounds (on one side of the origin) are written
   Proved under `wfInput` (see `shift_same_bases_partial`):
     shift_same_bases_partial     every written feature covers exactly the bases of its original
     extract_reloads_partial      (also `linked`) the numbers written follow the order in which a record
@@ -82,6 +83,19 @@ def ShiftSameBases (rd : RegionData) (rec : BioRecord) (w : Written) : Prop :=
 theorem shift_same_bases_partial (rd : RegionData) (rec : BioRecord) (w : Written)
     (h : writeToGenbank rd rec = .ok w) (hwf : wfInput rd rec = true) : ShiftSameBases rd rec w :=
   fun g hg => written_sameBases rd rec w h hwf g hg
+
+/-- Nothing inside the region is left out: a feature of the full record that lies between the region's
+    start and end (for a region over the origin: between its start and the record's end, or between the
+    origin and its end) is written.  Missing: features that themselves run over the origin inside a
+    region over the origin (they are gathered by a separate loop; the executable `insideKept` checks
+    them on the real output). -/
+theorem inside_kept_partial (rd : RegionData) (rec : BioRecord) (w : Written)
+    (h : writeToGenbank rd rec = .ok w) (f : BioFeature) (hf : f ∈ rec.features)
+    (hin : (rd.crossesOrigin = false ∧ rd.start ≤ f.loc.start ∧ f.loc.end ≤ rd.end) ∨
+           (rd.crossesOrigin = true ∧ rd.start ≤ f.loc.start ∧ f.loc.end ≤ rec.length) ∨
+           (rd.crossesOrigin = true ∧ 0 ≤ f.loc.start ∧ f.loc.end ≤ rd.end)) :
+    ∃ g ∈ w.extract.features, g.tag = f.tag :=
+  written_contains rd rec w h f hf hin
 
 /-- Renumbering is consistent: there is one renumbering per kind of area (protoclusters, candidate
     clusters, subregions) such that every written feature's references — the region's candidate and
